@@ -117,6 +117,7 @@ for _pid in ("C16", "C17"):
             T("Pins.finishAndNotifyShape", "pin", "finishAndNotify reports the writer's current key name and written size"),
             T("Pins.setAccessTimeShape", "pin", "setAccessTime: the access is booked under the key handed in"),
             T("Pins.getAccessCall", "pin", "storage.Get books the access under the key that was found"),
+            T("Pins.runSizeLimiterShape", "pin", "runSizeLimiter: the whole function body (start-up scan, restored access times, op switch, 5 s throttle, purge pass and its bookkeeping): nothing else stands between an item taken from the channel and a pass"),
         ]
 
 # C15 in histories (stream sysc): whatever path a Range request takes (fill, hit, REVALIDATION of a stale entry), the origin is asked for the whole resource
